@@ -55,6 +55,11 @@ class CountingGarbage:
             v = rng.choice(others)
             self.kinds.add("foreign-enum-value")
             return v
+        if td is not None and td.kind == "ENUM" and rng.random() < 0.25:
+            # not a string, but PRINTS like a declared value of this enum (or is the Python constant a value is named after)
+            name = rng.choice(td.values)
+            self.kinds.add("prints-like-enum-value")
+            return {"True": True, "False": False, "None": None}.get(name, garbage.PrintsAs(name))
         v = garbage.garbage(rng)
         self.kinds.add(type(v).__name__)
         return v
